@@ -293,7 +293,7 @@ func Run(sc Scenario) Result {
 		if err != nil {
 			res.Err = err.Error()
 		}
-	case <-time.After(4 * time.Second):
+	case <-time.After(10 * time.Second):
 		res.Hung = dump()
 		if res.Hung == "" {
 			res.Hung = "(no goroutine parked on a Broker lock found in the dump)"
@@ -304,7 +304,7 @@ func Run(sc Scenario) Result {
 		go func() { wg.Wait(); close(w) }()
 		select {
 		case <-w:
-		case <-time.After(2 * time.Second):
+		case <-time.After(10 * time.Second):
 			res.Returned = false
 			res.Hung = "helper calls (parked writer / probes) never returned: " + dump()
 		}
